@@ -235,8 +235,13 @@ class UGrammarPredictorLayer(nn.Module, Generic[A, U, V, W]):
                     # There are no other choices than variables
                     var_probability = 1
                 # Normalise variable probability
+                # one tag per derivation: a function-typed variable can have
+                # several derivations from S, each of them is tagged below
+                n_derivations = sum(
+                    len(grammar.rules[S][P]) for P in variables + constants  # type: ignore
+                )
                 normalised_variable_logprob: float = np.log(
-                    var_probability / (len(variables) + len(constants))
+                    var_probability / n_derivations
                 )
                 for P in variables:
                     for v in grammar.rules[S][P]:
